@@ -35,12 +35,17 @@ ASSUMPTIONS = [
     "key extractors and the join condition are harness callbacks (the node stores them as boxed closures)",
     "format!(\"{}_{}\", id, ts) of a symbolic timestamp is an injective arithmetic code (equal texts <=> equal id and equal timestamp); HashMap iteration = one fixed order (results are compared as multisets)",
 ]
-BOUNDS_NOTE = "bounds: K steps (arrivals and watermark advances together, see runs[].bounds); outer joins, count/session windows and join_manager routing are outside the claim"
+BOUNDS_NOTE = "bounds: K steps (arrivals and watermark advances together, see runs[].bounds); of the 180 five-step kind sequences 14 are not run (LLRRW LLRWW LLWRW LRLRW LRLWW LRRLW RLLRW RLLWW RLRLW RLRWW RRLLW RRLWW RRWLW LRRWW: too slow); outer joins, count/session windows and join_manager routing are outside the claim"
 
 
 def mk_event(step, ts):
     return St("StreamEvent", {"id": S("e%d" % step), "event_type": S("t"), "data": Mp([]),
                               "metadata": St("EventMetadata", {"timestamp": I(ts, "u64"), "source": S("s"), "sequence": I(0, "u64"), "tags": Mp([])})})
+
+
+# K=5 step-kind sequences that are NOT run: measured > 45 s .. > 240 s single-core (four arrivals followed by a watermark
+# re-scan, and their left/right mirror images); they are outside the thorough claim and listed in the bounds note
+SLOW5 = {"LLRRW", "LLRWW", "LLWRW", "LRLRW", "LRLWW", "LRRLW", "RLLRW", "RLLWW", "RLRLW", "RLRWW", "RRLLW", "RRLWW", "RRWLW", "LRRWW"}
 
 
 def shapes(K):
@@ -51,7 +56,7 @@ def shapes(K):
 
 TIERS = {
     "quick": [{"K": 3}] + [{"K": 4, "shape": x} for x in shapes(4)],
-    "thorough": [{"K": 3}] + [{"K": 4, "shape": x} for x in shapes(4)] + [{"K": 5, "shape": x} for x in shapes(5)],
+    "thorough": [{"K": 3}] + [{"K": 4, "shape": x} for x in shapes(4)] + [{"K": 5, "shape": x} for x in shapes(5) if x not in SLOW5],
 }
 
 def run(K, T=T, W=3, shape=None, witness=False):
